@@ -116,7 +116,7 @@ package config
 //@ pred ConverterKey(cmd string) bool = cmd == "converter" || cmd == "variables" || cmd == "name" || cmd == "output:raw" || cmd == "output:file"
 //@     || cmd == "output:format" || cmd == "output:package" || cmd == "struct:comment" || cmd == "enum:exclude" || cmd == "extend"
 //@ func parseConverterLine
-//@   props C15 C12
+//@   props C15 C12 C14
 //@   at@C15 return assert cmd == parse.CmdName(value) && rest == parse.CmdRest(value)
 //@   at@C15 return assert cmd == "output:package" && err == nil && !strings.Contains(parse.StringValue(rest), ":") ==> c.OutputPackagePath == parse.StringValue(rest) && c.OutputPackageName == ""
 //@   at@C15 return assert cmd == "output:package" && err == nil && strings.Contains(parse.StringValue(rest), ":") ==> c.OutputPackagePath + ":" + c.OutputPackageName == parse.StringValue(rest) && !strings.Contains(c.OutputPackagePath, ":")
@@ -128,6 +128,8 @@ package config
 //@   at@C12 return assert cmd == "name" && old(c.OutputFormat) != FormatStruct ==> err != nil
 //@   at@C12 return assert cmd == "struct:comment" && old(c.OutputFormat) != FormatStruct ==> err != nil
 //@   at@C12 call parseCommon#1 assert arg1 == cmd && arg2 == rest && !ConverterKey(cmd)
+//@   at@C14 call ctx.Loader.GetMatching#1 assert arg2 != nil && arg2.Params == method.ParamsRequired && !arg2.AllowTypeParams && arg2.ContextMatch == c.ArgContextRegex
+//@           && arg2.OutputPackagePath == c.OutputPackagePath && arg0 == c.Package && arg1 == name
 //@   loop 1 invariant c.OutputFile == old(c.OutputFile) && c.OutputPackagePath == old(c.OutputPackagePath) && c.OutputPackageName == old(c.OutputPackageName)
 
 //@ func Converter.requireStruct
@@ -193,6 +195,9 @@ package config
 //@   at@C12 return assert same(c.Common, old(c.Common))
 //@   at@C12 return assert MethodKey(cmd) ==> same(m.Common, old(m.Common))
 //@   at@C14 return assert cmd == "context" && err == nil ==> has(m.localOpts.Context, parse.StringValue(rest))
+// per-use parse options of map|FUNC and default FUNC: optional source, generics allowed, the METHOD's context regex
+//@   at@C14 call ctx.Loader.GetOne#* assert arg2 != nil && arg2.Params == method.ParamsOptional && arg2.AllowTypeParams && arg2.ContextMatch == m.ArgContextRegex
+//@           && arg2.OutputPackagePath == c.OutputPackagePath && arg0 == c.Package
 //@   at@C14 return assert cmd == "update" && err == nil ==> m.updateParam == parse.StringValue(rest)
 //@   at@C14 return assert cmd != "update" ==> m.updateParam == old(m.updateParam)
 //@   at@C14 return assert cmd != "context" ==> forall k string :: has(m.localOpts.Context, k) == old(has(m.localOpts.Context, k))
